@@ -367,6 +367,40 @@ INFO = {
     "C12-9": ("C12", "the receive_broadcasts listener reads into a 1472-byte buffer: datagrams above 1472 bytes are cut", ["C12", "C13"]),
     "C03-9": ("C03", "(= C04-7, found again from C03) read_from_remote ignores the result of deregister(): a remove() inside the "
                      "Message callback, with the peer's close queued behind the data, is followed by a Disconnected", ["C03", "C04"]),
+    "C02-10": ("C02", "encode_size writes sizes <= 0x80 as one byte: the prefix of a 128-byte payload is the lone byte 0x80", ["C02", "C01"]),
+    "C04-10": ("C04", "Tcp pending() applies the keepalive to a dup() of the descriptor and forgets it: with keepalive "
+                      "configured, remove() closes only the original and the peer never sees the close", ["C04", "C18"]),
+    "C05-10": ("C05", "for_each_async: the callback lock is a turn word taken with swap(me); a waiter's second swap reads back "
+                      "its own mark and walks in while the owner is still inside (needs contention longer than one spin)", ["C05"]),
+    "C06-10": ("C06", "send_with_timer with a zero duration sends the event through the plain channel: a later timer of the "
+                      "same thread that is due at the receive call overtakes it", ["C06", "C07"]),
+    "C07-10": ("C07", "ready_event treats a timer with less than 1 ms left as expired (as_millis() == 0): it is returned "
+                      "ahead of older plain events, up to a millisecond early", ["C07", "C08"]),
+    "C08-10": ("C08", "send_with_timer saturates an unrepresentable deadline (Duration::MAX) to now: the timer fires at once", ["C08", "C07"]),
+    "C09-10": ("C09", "(= C18-6 on the FramedTcp listener) the FramedTcp accept loop no longer leaves on an accept() error", ["C09", "C18", "C17"]),
+    "C10-10": ("C10", "Ws: the write buffer is bounded at one maximal frame and send() releases the state lock between flush "
+                      "attempts: with a stalled peer several threads queue more than 32 MiB and a send answers "
+                      "ResourceNotFound (WriteBufferFull)", ["C10", "C13"]),
+    "C11-10": ("C11", "the caching thread appends a Tcp chunk to the previous cached Message of the same endpoint: more than "
+                      "65535 bytes arriving before the listener call are replayed as one oversized chunk", ["C11", "C15"]),
+    "C12-10": ("C12", "the receive_broadcasts listener rebuilds the sender's IPv6 address from ip and port: the scope id of a "
+                      "link-local sender is dropped and the reply cannot be routed", ["C12"]),
+    "C13-10": ("C13", "Ws send() rejects a payload of exactly the declared maximum (>= instead of >)", ["C13", "C01"]),
+    "C14-10": ("C14", "Endpoint::from_listener asserts `local || !connection_oriented` instead of both: a Udp connection id "
+                      "(or a Tcp listener id) is accepted", ["C14", "C12"]),
+    "C16-10": ("C16", "receive_timeout returns try_recv() when less than 1 ms remains: sub-millisecond timeouts do not wait and "
+                      "a timer due within them is not returned", ["C16", "C07"]),
+    "C17-10": ("C17", "Ws send() retries flush() on every I/O error, not only WouldBlock: a send to a peer that has reset its "
+                      "connection (before the node processed it) never returns", ["C17", "C13"]),
+    "C18-10": ("C18", "the Ws server handshake treats HandshakeIncomplete (the peer closed during the upgrade) as 'needs more "
+                      "data': the accepted socket of a peer that connects and leaves stays open for ever", ["C18", "C03", "C17"]),
+    "C19-10": ("C19", "a text that is not ip:port is stored in its url-canonical form when it parses as a url "
+                      "('ws://domain:1234' becomes 'ws://domain:1234/')", ["C19"]),
+    "C01-10": ("C01", "Ws pending() ignores Read readiness: the handshake always completes on the Write dispatch, after which "
+                      "the driver does not read: messages that arrived together with the 101 answer are stranded", ["C01", "C03"]),
+    "C15-10": ("C15", "the caching thread drops Message events with an empty payload", ["C15", "C01"]),
+    "C03-10": ("C03", "the Ws client handshake's failure arm no longer restores the state: a connect to a peer that answers "
+                      "with something other than 101 leaves Handshake(None) and the resource's drop panics (unreachable)", ["C03", "C17"]),
     "C19-5": ("C19", "an ip:port text with port 0 (127.0.0.1:0, [::1]:0) is classified as a string", ["C19"]),
     "C19-1": ("C19", "SocketAddrV6 with non-zero flowinfo/scope_id converted to RemoteAddr: the fields are dropped", ["C19"]),
 }
